@@ -90,6 +90,19 @@ for periodic in (None, np.array([0, 2])):
             check_sample(tag + '/pool', b, 700, True, pool=pool)
         finally:
             pool.pool.terminate()
+# proposals cached before a restructuring (split / trim) must not survive it
+r0 = np.random.default_rng(0)
+far = np.vstack([r0.normal(size=(200, 3)), r0.normal(size=(200, 3)) + 10,
+                 r0.normal(size=(30, 3)) + 1e7])
+for word in (('split', 'trim'), ('split', 'split', 'trim'), ('trim',),
+             ('split',)):
+    u = Union.compute(far, enlarge_per_dim=1.1, n_points_min=50,
+                      bound_class=Ellipsoid, unit=False,
+                      rng=np.random.default_rng(0))
+    for op in word:
+        u.sample(300)           # leaves ~700 proposals in the cache
+        getattr(u, op)()
+    check_sample('Union/cache after ' + '.'.join(word), u, 600, False)
 # a likelihood that ignores one parameter: the outer bound becomes a cube /
 # ellipsoid mixture (a cylinder) while the neural bounds stay ellipsoids
 pts = np.hstack([rg.normal(size=(600, 2)) * 0.05 + 0.5, rg.random((600, 1))])
